@@ -1,18 +1,25 @@
 """C13 / C20: issue construction contracts."""
-from pv.contract import contract, class_fields
+from pv.contract import contract, class_fields, CLASS_INV
 
 class_fields('Normalizer', issues='list:ref:Issue')
-class_fields('ErrorFinder', issues='list:ref:Issue')
+class_fields('ErrorFinder', issues='list:ref:Issue', _error_dict='map:int:any')
 
 # signature / well-formedness contract of the error finder's add_issue: a caller obligation (pre@...) at every call site
+# class invariant (established by ErrorFinder.__init__: `self._error_dict = {}`; the constructor itself, which forwards
+# *args / **kwargs, is outside the subset): the per-line table exists
+CLASS_INV.setdefault('ErrorFinder', []).append('self._error_dict is not None')
+
+# the first issue of a line wins: the line is a key afterwards, an existing entry is kept, no other line is touched
 contract('parso.python.errors.ErrorFinder.add_issue',
-         params={'self': 'ref:ErrorFinder', 'node': 'ref', 'code': 'int', 'message': 'str'},
+         params={'self': 'ref:ErrorFinder', 'node': 'ref:NodeOrLeaf', 'code': 'int', 'message': 'str'},
          requires=['(code == 901 and message.startswith("SyntaxError: ")) or '
                    '(code == 903 and message.startswith("IndentationError: "))',
-                   'node is not None'],
-         ensures=[], trusted=True, modifies=['issues', '_error_dict', '$maps', 'code', 'message', 'start_pos', 'end_pos'], lists='*',
-         note='only the precondition is used (checked at the call sites); the first-issue-per-line rule of the body is '
-              'covered by the bounded stand-in')
+                   'node is not None', 'self._error_dict is not None'],
+         ensures=['spos(node)[0] in self._error_dict',
+                  'implies(old(spos(node)[0] in self._error_dict), self._error_dict[spos(node)[0]] == old(self._error_dict[spos(node)[0]]))',
+                  'forall(lambda l: implies(l != spos(node)[0], (l in self._error_dict) == old(l in self._error_dict) and '
+                  'implies(l in self._error_dict, self._error_dict[l] == old(self._error_dict[l]))))'],
+         modifies=['_error_dict', '$maps'], theories=['tree', 'treepos'], props=['C13'])
 contract('parso.python.errors.ErrorFinder._add_syntax_error',
          params={'self': 'ref:ErrorFinder', 'node': 'ref', 'message': 'str'}, requires=['node is not None'],
          modifies=['issues', '_error_dict', '$maps'], lists='*', props=['C13'])
